@@ -136,13 +136,17 @@ static void do_listen() {
 }
 
 // after every op: let the kernel finish, accept what has arrived, bind / drop accepted ends, read the bound end
-static void after_op() {
-    if (cur.fam == "tcp") ns::settle();
+static void accept_all() {
     if (lis_fd >= 0) for (;;) { int fd = accept4(lis_fd, nullptr, nullptr, SOCK_NONBLOCK | SOCK_CLOEXEC); if (fd < 0) break; accepted.push_back(fd); }
+}
+static void after_op() {
+    if (cur.fam == "tcp") ns::settle(true, accept_all);
+    accept_all();
     for (auto c : delivered) delete c;
     delivered.clear();
     if (is_cn()) {
         if (connector && connector->state() != TcpConnector::State::kConnecting) { for (int &fd : accepted) close_fd(fd); accepted.clear(); }
+        if (cur.fam == "tcp") ns::settle();
         return;
     }
     TcpClient::State st = client ? client->state() : TcpClient::State::kNone;
@@ -196,8 +200,8 @@ static bool applicable(const Op &op) {
     if (op.o == "unlisten") return lis_fd >= 0;
     if (op.o == "init" && is_cn()) return connector->state() == TcpConnector::State::kNone;
     if (op.o == "psend" || op.o == "pclose") return !is_cn() && peer_fd >= 0 && !peer_closed && client->state() == TcpClient::State::kConnected;
-    if (op.o == "send" || op.o == "shutdown") return !is_cn();
-    if (op.o == "send" && peer_closed) return false;
+    if (op.o == "send") return !is_cn() && !peer_closed;      // environment assumption: no write to a connection known to be closed
+    if (op.o == "shutdown") return !is_cn();
     return true;
 }
 static void apply(const Op &op) {          // every op but `pass`
@@ -240,7 +244,10 @@ static bool in_exec = false, awaiting_pass = false;
 static void step() {
     if (awaiting_pass) { ret_line(0); awaiting_pass = false; }
     for (;;) {
-        if (ns::g_settle_timeout) { out("{\"e\":\"SettleTimeout\"}"); loop->exitLoop(); return; }
+        if (ns::g_settle_timeout) {        // infrastructure, not a verdict: exit like a timeout (vlib: rc 124 = Infra)
+            fprintf(stderr, "the kernel did not settle a loopback TCP exchange within 20 s (execution %d)\n", exec_no);
+            vh::T().flush(); _exit(124);
+        }
         if (!in_exec) {
             Script s;
             if (!next_exec(s)) { loop->exitLoop(); return; }
@@ -358,5 +365,5 @@ int main(int argc, char **argv) {
     delete loop;
     ::unlink(unix_path().c_str());
     vh::T().close();
-    return ns::g_settle_timeout ? 5 : 0;
+    return 0;
 }
